@@ -209,21 +209,29 @@ def reference(prog):
 
 
 def real(prog):
+    """All operations of a program run inside ONE event loop task (one context): a marker leaked by an async call must be
+    visible to the operations that follow, as it is in a long-running asyncio application."""
+    return asyncio.run(_real(prog))
+
+
+async def _real(prog):
     del LOG[:]
     classes = build(prog)
     outs = []
     obj = None
 
+    def outcome(e):
+        if isinstance(e, icontract.ViolationError):
+            return ["raise", "ViolationError"]
+        if isinstance(e, (AttributeError, ValueError, TypeError, RecursionError)):
+            return ["raise", type(e).__name__]
+        return ["raise", "%s: %s" % (type(e).__name__, str(e)[:100])]
+
     def classify(f):
         try:
             return ["return", f()]
-        except icontract.ViolationError as e:
-            msg = str(e)
-            return ["raise", "ViolationError"]
-        except (AttributeError, ValueError, TypeError, RecursionError) as e:
-            return ["raise", type(e).__name__]
         except BaseException as e:
-            return ["raise", "%s: %s" % (type(e).__name__, str(e)[:100])]
+            return outcome(e)
 
     for op in prog["ops"]:
         if op[0] == "new":
@@ -244,7 +252,10 @@ def real(prog):
         elif op[0] == "call":
             m = op[1]
             if m == "async_pub":
-                outs.append(classify(lambda: asyncio.run(obj.async_pub())))
+                try:
+                    outs.append(["return", await obj.async_pub()])
+                except BaseException as e:
+                    outs.append(outcome(e))
             elif m == "prop":
                 outs.append(classify(lambda: obj.prop))
             else:
